@@ -1,0 +1,52 @@
+//go:build verif
+
+// Contracts for package transactions, read by /verif/govc (comment-only file).
+
+package transactions
+
+// ---- C29: transaction store = two independent maps (whole-view postconditions) ----
+//@ pred storeInv(ts *TransactionStore) = ts.bypktID != nil && ts.bypktType != nil && ts.bypktID != ts.bypktType
+
+//@ func NewTransactionStore
+//@   nopanic [C29]
+//@   ensures [C29] init: fresh(result) && storeInv(result) && fresh(result.bypktID) && fresh(result.bypktType) &&
+//@      (forall k uint16 :: !(k in result.bypktID)) && (forall k pkts.PacketType :: !(k in result.bypktType))
+
+//@ func (*TransactionStore).Store
+//@   nopanic [C29]
+//@   requires [C29] inv: storeInv(ts)
+//@   guarded [C29] RWMutex: bypktID, bypktType
+//@   assigns map(ts.bypktID)
+//@   ensures [C29] whole_view: forall k uint16 :: (k in ts.bypktID) == (k == pktID || old(k in ts.bypktID)) &&
+//@      (k == pktID ==> ts.bypktID[k] == transaction) && (k != pktID ==> ts.bypktID[k] == old(ts.bypktID[k]))
+//@ func (*TransactionStore).StoreByType
+//@   nopanic [C29]
+//@   requires [C29] inv: storeInv(ts)
+//@   guarded [C29] RWMutex: bypktID, bypktType
+//@   assigns map(ts.bypktType)
+//@   ensures [C29] whole_view: forall k pkts.PacketType :: (k in ts.bypktType) == (k == pktType || old(k in ts.bypktType)) &&
+//@      (k == pktType ==> ts.bypktType[k] == transaction) && (k != pktType ==> ts.bypktType[k] == old(ts.bypktType[k]))
+//@ func (*TransactionStore).Get
+//@   nopanic [C29]
+//@   requires [C29] inv: storeInv(ts)
+//@   guarded [C29] RWMutex: bypktID, bypktType
+//@   ensures [C29] lookup: result1 == (pktID in ts.bypktID) && (result1 ==> result0 == ts.bypktID[pktID]) && (!result1 ==> result0 == nil)
+//@ func (*TransactionStore).GetByType
+//@   nopanic [C29]
+//@   requires [C29] inv: storeInv(ts)
+//@   guarded [C29] RWMutex: bypktID, bypktType
+//@   ensures [C29] lookup: result1 == (pktType in ts.bypktType) && (result1 ==> result0 == ts.bypktType[pktType]) && (!result1 ==> result0 == nil)
+//@ func (*TransactionStore).Delete
+//@   nopanic [C29]
+//@   requires [C29] inv: storeInv(ts)
+//@   guarded [C29] RWMutex: bypktID, bypktType
+//@   assigns map(ts.bypktID)
+//@   ensures [C29] whole_view: forall k uint16 :: (k in ts.bypktID) == (k != pktID && old(k in ts.bypktID)) &&
+//@      (k != pktID ==> ts.bypktID[k] == old(ts.bypktID[k]))
+//@ func (*TransactionStore).DeleteByType
+//@   nopanic [C29]
+//@   requires [C29] inv: storeInv(ts)
+//@   guarded [C29] RWMutex: bypktID, bypktType
+//@   assigns map(ts.bypktType)
+//@   ensures [C29] whole_view: forall k pkts.PacketType :: (k in ts.bypktType) == (k != pktType && old(k in ts.bypktType)) &&
+//@      (k != pktType ==> ts.bypktType[k] == old(ts.bypktType[k]))
